@@ -78,6 +78,18 @@ CLAIMED['C13'] = (
     'fmod in double mode by its C99 contract; sqrt/atan2 by defining equations; numpy.linspace modelled; PolygonMask2D not '
     'claimed (pure delegation to raysect triangulation).',
     'DESIGN.md §4 C13', TECH + '; z3 Float64 for the periodic kernel')
+CLAIMED['C18'] = (
+    'The four laser profiles (translated) are constructed with all parameters symbolic; z3 proves the energy density at a '
+    'symbolic point equals E/(c tau) times the product of normal pdfs with the documented widths (uniform: the given '
+    'density), that the generated segments tile [0, length] exactly once (<=4 segments), and - one-step induction with a '
+    'freshly constructed object as invariant - that after any single setter with a symbolic value the energy density, '
+    'polarisation, geometry and reported parameters equal those of a fresh object. ConstantSpectrum / GaussianSpectrum: '
+    'per-bin power equals the integral of the density over the bin (erf form), accessors return what they are named '
+    'after, same one-step setter induction. The bin-edge computation is additionally decided in IEEE-754 double mode '
+    '(every bin edge handed to the density lies inside [min,max]).',
+    'exp/erf uninterpreted with lemma schemas; the Gaussian integral = 1 is a stated lemma; bins concrete per job; the '
+    'double-mode unsat proofs are reported as inconclusive-FP when the solver does not finish (never as success).',
+    'DESIGN.md §4 C18', TECH + '; z3 Float64 for the bin edges')
 NOT_YET = {}
 props = [json.loads(l) for l in open(os.path.join(HERE, 'properties.jsonl'))]
 checks, na = [], []
